@@ -1,4 +1,108 @@
+/-
+  C08 — values of all representations live in one consistent ordered number line.
+
+  Every comparison, sign, floor / ceiling / integrality answer, numerator / denominator extraction, in-between
+  pick, hash pair and arithmetic result of `lp_value_*` is judged on every run through the denotation of the
+  value as an extended real: finite representations (integer, dyadic, rational, algebraic) are mapped to the
+  algebraic-number model, whose exact comparison is proved correct (`LP.Props.Alg`).  Proved here:
+  `C08_cmp` — the model's comparison of two values is the order of the denoted extended reals, whatever the
+  representations (so the judged order is total, antisymmetric, transitive and representation independent);
+  arithmetic results are accepted only through `C07_select_sound`.
+  Hash equality of equal numbers and the strictness of the in-between pick are validated per output with this
+  exact comparison (no theorem about the C code itself).
+-/
 import LP.Props.C07
+import LP.Driver.Value
+import Mathlib.Data.EReal.Basic
+
 namespace LP
-theorem C08_placeholder : True := trivial
+open LP.Driver
+
+/-- the extended real denoted by a value -/
+def ValDen : Val → EReal → Prop
+  | .pinf, x => x = ⊤
+  | .minf, x => x = ⊥
+  | .none, _ => False
+  | v, x => ∃ (a : ZAlg) (r : ℝ), v.toZ? = some a ∧ a.a.Valid ∧ a.a.Den r ∧ x = (r : EReal)
+
+theorem C08_cmp (v w : Val) (c : Int) (x y : EReal) (hx : ValDen v x) (hy : ValDen w y)
+    (h : Val.cmp v w = some c) :
+    (c = -1 ∧ x < y) ∨ (c = 0 ∧ x = y) ∨ (c = 1 ∧ y < x) := by
+  -- finite × finite
+  have fin : ∀ (v w : Val), v.rank = some 0 → w.rank = some 0 →
+      ∀ (a b : ZAlg) (r s : ℝ), v.toZ? = some a → a.a.Valid → a.a.Den r → w.toZ? = some b → b.a.Valid → b.a.Den s →
+      Val.cmp v w = some c → (c = -1 ∧ (r : EReal) < s) ∨ (c = 0 ∧ (r : EReal) = s) ∨ (c = 1 ∧ (s : EReal) < r) := by
+    intro v w hv hw a b r s ha hva hda hb hvb hdb hc
+    unfold Val.cmp at hc
+    rw [hv, hw] at hc
+    simp only [and_self, if_true, ha, hb] at hc
+    have := Alg.cmp_sound a.a b.a c r s hva hda hvb hdb hc
+    rcases this with ⟨h1, h2⟩ | ⟨h1, h2⟩ | ⟨h1, h2⟩
+    · left; exact ⟨h1, by exact_mod_cast h2⟩
+    · right; left; exact ⟨h1, by exact_mod_cast h2⟩
+    · right; right; exact ⟨h1, by exact_mod_cast h2⟩
+  cases v <;> cases w <;>
+    first
+    | (exact absurd hx id)
+    | (exact absurd hy id)
+    | (obtain ⟨a, r, ha, hva, hda, rfl⟩ := hx
+       obtain ⟨b, s, hb, hvb, hdb, rfl⟩ := hy
+       exact fin _ _ rfl rfl a b r s ha hva hda hb hvb hdb h)
+    | (obtain ⟨a, r, ha, hva, hda, rfl⟩ := hx
+       have : y = ⊤ := hy
+       subst this
+       simp only [Val.cmp, Val.rank, cmpI] at h
+       norm_num at h
+       subst h
+       left; exact ⟨rfl, EReal.coe_lt_top r⟩)
+    | (obtain ⟨a, r, ha, hva, hda, rfl⟩ := hx
+       have : y = ⊥ := hy
+       subst this
+       simp only [Val.cmp, Val.rank, cmpI] at h
+       norm_num at h
+       subst h
+       right; right; exact ⟨rfl, EReal.bot_lt_coe r⟩)
+    | (obtain ⟨b, s, hb, hvb, hdb, rfl⟩ := hy
+       have : x = ⊤ := hx
+       subst this
+       simp only [Val.cmp, Val.rank, cmpI] at h
+       norm_num at h
+       subst h
+       right; right; exact ⟨rfl, EReal.coe_lt_top s⟩)
+    | (obtain ⟨b, s, hb, hvb, hdb, rfl⟩ := hy
+       have : x = ⊥ := hx
+       subst this
+       simp only [Val.cmp, Val.rank, cmpI] at h
+       norm_num at h
+       subst h
+       left; exact ⟨rfl, EReal.bot_lt_coe s⟩)
+    | (have e1 : x = ⊤ := hx
+       have e2 : y = ⊤ := hy
+       subst e1 e2
+       simp only [Val.cmp, Val.rank, cmpI] at h
+       norm_num at h
+       subst h
+       right; left; exact ⟨rfl, rfl⟩)
+    | (have e1 : x = ⊥ := hx
+       have e2 : y = ⊥ := hy
+       subst e1 e2
+       simp only [Val.cmp, Val.rank, cmpI] at h
+       norm_num at h
+       subst h
+       right; left; exact ⟨rfl, rfl⟩)
+    | (have e1 : x = ⊤ := hx
+       have e2 : y = ⊥ := hy
+       subst e1 e2
+       simp only [Val.cmp, Val.rank, cmpI] at h
+       norm_num at h
+       subst h
+       right; right; exact ⟨rfl, bot_lt_top⟩)
+    | (have e1 : x = ⊥ := hx
+       have e2 : y = ⊤ := hy
+       subst e1 e2
+       simp only [Val.cmp, Val.rank, cmpI] at h
+       norm_num at h
+       subst h
+       left; exact ⟨rfl, bot_lt_top⟩)
+
 end LP
